@@ -719,6 +719,14 @@ pub fn replay<H: Harness>(h: &H, path: &Path) -> i32 {
 			}
 			if ex.points.len() != v.choices.len() {
 				eprintln!("machinery: replay took {} points, file has {}", ex.points.len(), v.choices.len());
+				if std::env::var_os("VERIF_TRACE").is_some() {
+					for (i, p) in ex.points.iter().enumerate() {
+						eprintln!("  point {i}: {p:?}");
+					}
+					for l in &ex.out.log {
+						eprintln!("  {l}");
+					}
+				}
 				return 2;
 			}
 			println!("scenario: {}", v.scenario);
